@@ -168,7 +168,7 @@ def make_rogue_ctx(tlsver):
     """a server context with a self-signed certificate no client CA knows, and an empty session cache"""
     ctx = ssl.SSLContext(ssl.PROTOCOL_TLS_SERVER)
     ctx.load_cert_chain(os.path.join(ROGUEDIR, "rogue.pem"), os.path.join(ROGUEDIR, "rogue.key"))
-    if tlsver == "12":
+    if tlsver in ("12", "12n"):
         ctx.maximum_version = ssl.TLSVersion.TLSv1_2
     elif tlsver == "13":
         ctx.minimum_version = ssl.TLSVersion.TLSv1_3
@@ -178,7 +178,11 @@ def make_rogue_ctx(tlsver):
 def make_server_ctx(tlsver):
     ctx = ssl.SSLContext(ssl.PROTOCOL_TLS_SERVER)
     ctx.load_cert_chain(os.path.join(CERTDIR, "server_cert.pem"), os.path.join(CERTDIR, "server_cert.key"))
-    if tlsver == "12":
+    if tlsver == "12n":
+        # TLS 1.2 without RFC 5077 tickets: sessions are resumed by their id from the server's own cache
+        ctx.maximum_version = ssl.TLSVersion.TLSv1_2
+        ctx.options |= ssl.OP_NO_TICKET
+    elif tlsver == "12":
         ctx.maximum_version = ssl.TLSVersion.TLSv1_2
     elif tlsver == "13":
         ctx.minimum_version = ssl.TLSVersion.TLSv1_3
